@@ -18,13 +18,16 @@ def handler_task_var(c: Ctx, u: Unit) -> tuple[str, ast.Assign]:
     for n in own_nodes(u.node):
         if isinstance(n, ast.Assign) and isinstance(n.value, ast.Call) and call_name(n.value) in ('create_task', 'ensure_future') and n.value.args and id(n.value.args[0]) in inv and isinstance(n.targets[0], ast.Name):
             return n.targets[0].id, n
-    raise AnalysisError(f'{u}: no `task = create_task(handler(event))`')
+    return None, None  # the async handler is not run as a task (awaited inline)
 
 
 @ob('C10.1', 'FLOW', 'async handlers run as asyncio.wait_for(<handler task>, timeout=<result record>.timeout) and that field is initialised from the event\'s event_timeout')
 def c10_1(c: Ctx) -> None:
     u = c.unit(SVC, 'EventBus.execute_handler')
     t, tasg = handler_task_var(c, u)
+    if t is None:
+        check_inline_timeout(c, u)
+        return
     waits = [n for n in own_nodes(u.node) if isinstance(n, ast.Await) and isinstance(n.value, ast.Call) and call_name(n.value) == 'wait_for' and n.value.args and U(n.value.args[0]) == t
              and not any(isinstance(a, ast.Try) and q.lexically_in(n, a, 'finalbody') for a in q.ancestors_of(n))]
     if len(waits) != 1:
@@ -63,6 +66,31 @@ def c10_1(c: Ctx) -> None:
             c.ok(where(upd, k), 'EventResult.timeout initialised from event.event_timeout')
         else:
             c.fail(upd, f'EventResult timeout initialised from {U(v) if v is not None else "nothing"}', "the result record's timeout is not the event's event_timeout", node=k)
+
+
+def check_inline_timeout(c: Ctx, u: Unit) -> None:
+    """No handler task: every inline `await handler(event)` must sit in `async with asyncio.timeout(<record>.timeout)` (or under `timeout is None`)."""
+    g = c.cfg(u)
+    inv = [call for x, call in handler_invocations(c) if x.key == u.key and isinstance(parent(call), ast.Await)]
+    if not inv:
+        c.fail(u, 'async handlers are neither run as a task under wait_for nor awaited under asyncio.timeout', 'the handler timeout is not enforced')
+        return
+    for call in inv:
+        w = next((a for a in q.ancestors_of(call) if isinstance(a, ast.AsyncWith) and any(isinstance(it.context_expr, ast.Call) and U(it.context_expr.func) in ('asyncio.timeout', 'asyncio.timeout_at') for it in a.items)), None)
+        if w is not None:
+            arg = next(it.context_expr.args[0] for it in w.items if isinstance(it.context_expr, ast.Call) and it.context_expr.args)
+            ty = c.prog.infer(arg.value, u) if isinstance(arg, ast.Attribute) else None
+            if isinstance(arg, ast.Attribute) and arg.attr == 'timeout' and ty is not None and ty.kind == 'cls' and ty.name == 'EventResult':
+                c.ok(where(u, call), f'handler awaited inline under `async with asyncio.timeout({U(arg)})`')
+            else:
+                c.fail(u, f'inline handler await under asyncio.timeout({U(arg)[:40]})', "the handler is not cancelled at its result record's timeout", node=call)
+        else:
+            facts = Facts(lambda a: a == 'event_result.timeout', cg=c.cg, unit=u)
+            bad = [p for n in g.nodes_of(q.stmt_of(call)) if (p := q.guard_search(g, n, 'event_result.timeout is None', facts)) is not None]
+            if bad:
+                c.fail(u, f'async handler awaited inline without any timeout: {U(parent(call))[:50]}', 'a handler of an event that has a timeout is not cancelled when the timeout expires', node=call, witness=c.path(g.entry, bad[0]))
+            else:
+                c.ok(where(u, call), 'inline await only where no timeout exists')
 
 
 def timeout_arms(c: Ctx, u: Unit) -> list[ast.ExceptHandler]:
@@ -132,6 +160,9 @@ def c10_3(c: Ctx) -> None:
 
     u = c.unit(SVC, 'EventBus.execute_handler')
     t, tasg = handler_task_var(c, u)
+    if t is None:
+        c.ok(where(u), 'no handler task exists (the handler coroutine is awaited inline): it cannot outlive execute_handler')
+        return
     check_handler_task(c, u, tasg.value, tasg.value.args[0])
     fin = [n for n in own_nodes(u.node) if isinstance(n, ast.Await) and t in U(n.value) and any(isinstance(a, ast.Try) and q.lexically_in(n, a, 'finalbody') for a in q.ancestors_of(n))]
     for a in fin:
@@ -266,6 +297,15 @@ def c10_7(c: Ctx) -> None:
     from .c11 import c11_1
 
     c11_1(c)
+
+
+
+@ob('C10.8', 'DOM', 'the children a timed-out handler was waiting on are reachable for cancellation: every accepted event dispatched from a handler is registered as its child '
+    '(same obligation as C09.9)')
+def c10_8(c: Ctx) -> None:
+    from .c09 import check_child_registration_guards
+
+    check_child_registration_guards(c)
 
 
 OBLIGATIONS = ob.obs
